@@ -1,14 +1,191 @@
-"""C17 translator: constants of air/src/mono.rs used by Model/Mono.v."""
+"""C17 translator: constants, match-arm lists, check orders and guard conditions of air/src/mono.rs and
+air/src/lower.rs that the hand models (Model/Mono.v, Model/AirTypes.v, Model/AirLower.v) depend on.
+
+Everything is recovered from the *structure* of the source (which variants a function recurses
+under, in which order two checks occur, whether a condition mentions a field), not from its layout:
+comments, formatting, renamed locals, merged or reordered match arms and if-let vs match do not
+matter.  ExtractError is raised only when a function or a construct can no longer be found."""
+import re
 import extract
+
+
+def all_fns(text):
+    """[(name, body)] of every `fn` in the (comment-free) text, brace matched."""
+    out = []
+    for m in re.finditer(r"\bfn\s+(\w+)\s*(?:<[^>]*>)?\s*\(", text):
+        depth, j = 0, m.end() - 1
+        while j < len(text):
+            if text[j] == "(":
+                depth += 1
+            elif text[j] == ")":
+                depth -= 1
+                if depth == 0:
+                    break
+            j += 1
+        i = j
+        while i < len(text) and text[i] not in "{;":
+            i += 1
+        if i >= len(text) or text[i] == ";":
+            continue
+        depth, k = 0, i
+        while k < len(text):
+            if text[k] == "{":
+                depth += 1
+            elif text[k] == "}":
+                depth -= 1
+                if depth == 0:
+                    out.append((m.group(1), text[i + 1:k]))
+                    break
+            k += 1
+    return out
+
+
+def fn_body(text, name, marks=()):
+    """Body of function `name`; if it was renamed, the unique function whose body contains every
+    string of `marks` (what the function is recognised by structurally)."""
+    fns = all_fns(text)
+    for n, b in fns:
+        if n == name:
+            return b
+    if marks:
+        cand = [(n, b) for n, b in fns if all(re.search(mk, b) for mk in marks)]
+        if len(cand) == 1:
+            return cand[0][1]
+        raise extract.ExtractError(f"function {name} not found and {len(cand)} functions look like it")
+    raise extract.ExtractError(f"function {name} not found")
+
+
+VARIANTS = ["Param", "Ptr", "Array", "Slice", "FnPtr"]
+
+
+def recursion_under(body, self_call):
+    """For each AirType variant: does the function handle it by calling itself / doing the work?
+    The body is cut into regions that start where a variant is named in a *pattern* position for the
+    scrutinee (first mention of `AirType::V` after the previous region's `=>` / `if let`); a region
+    belongs to every variant named in its pattern.  A region 'recurses' if it contains self_call."""
+    # pattern heads: sequences `AirType::V ... (| AirType::W ...)* =>`  or  `if let AirType::V ... = <expr>`
+    heads = []
+    for m in re.finditer(r"((?:AirType::\w+\s*(?:\([^()]*\)|\{[^{}]*\})?\s*\|?\s*)+)=>", body):
+        heads.append((m.start(), m.end(), re.findall(r"AirType::(\w+)", m.group(1))))
+    if not heads:
+        for m in re.finditer(r"if\s+let\s+((?:AirType::\w+\s*(?:\([^()]*\)|\{[^{}]*\})?\s*\|?\s*)+)=", body):
+            heads.append((m.start(), m.end(), re.findall(r"AirType::(\w+)", m.group(1))))
+    if not heads:
+        raise extract.ExtractError("no pattern over AirType found")
+    heads.sort()
+    res = {v: False for v in VARIANTS}
+    seen = set()
+    for idx, (st, en, vs) in enumerate(heads):
+        # the arm's text: up to the next arm of the SAME match (next head at brace depth 0 relative to here)
+        depth, k, end = 0, en, len(body)
+        nxt = [h[0] for h in heads[idx + 1:]]
+        while k < len(body):
+            c = body[k]
+            if c == "{":
+                depth += 1
+            elif c == "}":
+                depth -= 1
+                if depth < 0:
+                    end = k
+                    break
+            elif depth == 0 and k in nxt:
+                end = k
+                break
+            k += 1
+        region = body[en:end]
+        for v in vs:
+            if v in res:
+                seen.add(v)
+                if re.search(self_call, region):
+                    res[v] = True
+    return res, seen
 
 
 @extract.register("MonoConsts")
 def gen_mono_consts():
     src = "air/src/mono.rs"
-    c = extract.consts_of(extract.rd(src), ["MAX_MONO_ROUNDS"])
+    text = extract.rd(src)
+    c = extract.consts_of(text, ["MAX_MONO_ROUNDS"])
     v, _ = c["MAX_MONO_ROUNDS"]
     if not (0 < v <= 4096):
         raise extract.ExtractError(f"MAX_MONO_ROUNDS = {v}: outside the range the model evaluates with nat fuel")
+    code = extract.strip_comments(text)
+    sub, _ = recursion_under(fn_body(code, "substitute_type", [r"\*\s*\w+\s*=\s*\w+\.clone\(\)", r"AirType::Param", r"\.position\("]), r"\bsubstitute_type\s*\(|\*\s*ty\s*=")
+    uni, _ = recursion_under(fn_body(code, "unify_param", [r"or_insert_with", r"AirType::Param"]), r"\bunify_param\s*\(|\.entry\s*\(|\.insert\s*\(")
+    t2s = fn_body(code, "type_to_string", [r'"ptr_\{\}"', r'"slice_\{\}"'])
+    m = re.search(r"AirType::FnPtr\s*\{([^{}]*)\}\s*=>", t2s)
+    if not m:
+        raise extract.ExtractError("type_to_string: FnPtr arm not found")
+    fnptr_structured = bool(re.search(r"\bparams\b", m.group(1))) and bool(re.search(r"\bret\b", m.group(1)))
+    rename = bool(re.search(r"StructInit", fn_body(code, "substitute_rvalue", [r"Rvalue::Cast", r"substitute_type"])))
+    mono = fn_body(code, "monomorphize", [r"MonoContext::new", r"\.retain\("])
+    loops = bool(re.search(r"\bfor\b[^{]*MAX_MONO_ROUNDS", mono)) and bool(re.search(r"\.instantiate\s*\(", mono))
+    rw = fn_body(code, "rewrite_call_sites", [r"Callee::Named\(", r"edits|mangled"])
+    per_site = bool(re.search(r"infer_type_args|_for_call\s*\(", rw))
+    b = lambda x: "true" if x else "false"
     out = [extract.HEADER.format(src=src), "From Coq Require Import NArith.\n",
-           f"Definition MAX_MONO_ROUNDS : N := {v}%N.\n"]
+           f"Definition MAX_MONO_ROUNDS : N := {v}%N.\n",
+           "(* substitute_type: variants under which the substitution descends *)\n",
+           f"Definition SUBST_PARAM : bool := {b(sub['Param'])}.\n",
+           f"Definition SUBST_PTR : bool := {b(sub['Ptr'])}.\n",
+           f"Definition SUBST_ARRAY : bool := {b(sub['Array'])}.\n",
+           f"Definition SUBST_SLICE : bool := {b(sub['Slice'])}.\n",
+           f"Definition SUBST_FNPTR : bool := {b(sub['FnPtr'])}.\n",
+           "(* unify_param: variants through which type arguments are inferred *)\n",
+           f"Definition UNIFY_PARAM : bool := {b(uni['Param'])}.\n",
+           f"Definition UNIFY_PTR : bool := {b(uni['Ptr'])}.\n",
+           f"Definition UNIFY_ARRAY : bool := {b(uni['Array'])}.\n",
+           f"Definition UNIFY_SLICE : bool := {b(uni['Slice'])}.\n",
+           f"Definition UNIFY_FNPTR : bool := {b(uni['FnPtr'])}.\n",
+           "(* type_to_string prints a FnPtr with its parameter and result types *)\n",
+           f"Definition KEY_FNPTR_STRUCTURED : bool := {b(fnptr_structured)}.\n",
+           "(* substitute_rvalue touches StructInit names *)\n",
+           f"Definition STRUCTINIT_RENAMED : bool := {b(rename)}.\n",
+           "(* monomorphize repeats instantiate + collect over new instances; call sites are rewritten per site *)\n",
+           f"Definition MONO_ROUNDS_LOOP : bool := {b(loops)}.\n",
+           f"Definition REWRITE_PER_CALL_SITE : bool := {b(per_site)}.\n"]
     return extract.write_if_changed("MonoConsts.v", "".join(out))
+
+
+@extract.register("LowerFlags")
+def gen_lower_flags():
+    src = "air/src/lower.rs"
+    code = extract.strip_comments(extract.rd(src))
+    # order of the two name checks in lower_type_from_infer's Struct arm
+    body = fn_body(code, "lower_type_from_infer", [r"InferType::Struct", r"AirType::Slice"])
+    m = re.search(r"InferType::Struct\s*\(\s*(\w+)\s*\)\s*=>", body)
+    if not m:
+        raise extract.ExtractError("lower_type_from_infer: Struct arm not found")
+    arm = body[m.end():]
+    p_tp = arm.find("type_params_map")
+    p_st = arm.find("is_struct_name")
+    if p_tp < 0:
+        raise extract.ExtractError("lower_type_from_infer: no type parameter lookup in the Struct arm")
+    has_struct_check = p_st >= 0
+    param_first = (not has_struct_check) or p_tp < p_st
+    fin = fn_body(code, "finalize_function_body", [r"AirTerminator::Return\(None\)", r"current_blocks\.is_empty\(\)"])
+    fin_pending = "pending_block_id" in fin
+    noop = fn_body(code, "fixup_block_id_noop", [r"self\.pending_block_id\s*=\s*Some\("])
+    noop_seals = "seal_block" in noop
+    lf = fn_body(code, "lower_function", [r"alloc_function_id\(\)", r"lower_closure|captures"])
+    saves = lambda field: bool(re.search(r"(take\s*\(\s*&mut\s+self\.%s\s*\)|self\.%s\s*\.\s*(take|clone)\s*\(\s*\))" % (field, field), lf)) \
+        and bool(re.search(r"self\.%s\s*=" % field, lf))
+    stmt = fn_body(code, "lower_stmt", [r"TypedStmtKind::Break", r"TypedStmtKind::Let"])
+    nested_struct = bool(re.search(r"StructDecl\s*\{[^{}]*\}\s*=>\s*\{[^{}]*\w*struct_decl\s*\(", stmt, flags=re.S))
+    b = lambda x: "true" if x else "false"
+    out = [extract.HEADER.format(src=src),
+           "(* lower_type_from_infer, Struct(name): the type-parameter lookup comes before the struct check *)\n",
+           f"Definition NAME_PARAM_FIRST : bool := {b(param_first)}.\n",
+           f"Definition NAME_STRUCT_CHECKED : bool := {b(has_struct_check)}.\n",
+           "(* finalize_function_body looks at pending_block_id; fixup_block_id_noop seals a pending block *)\n",
+           f"Definition FINALIZE_CHECKS_PENDING : bool := {b(fin_pending)}.\n",
+           f"Definition NOOP_SEALS_PENDING : bool := {b(noop_seals)}.\n",
+           "(* lower_function saves and restores these per-function fields *)\n",
+           f"Definition SAVES_LOOP_STACK : bool := {b(saves('loop_stack'))}.\n",
+           f"Definition SAVES_TYPE_PARAMS : bool := {b(saves('type_params_map'))}.\n",
+           f"Definition SAVES_PENDING : bool := {b(saves('pending_block_id'))}.\n",
+           f"Definition SAVES_ALIASES : bool := {b(saves('block_aliases'))}.\n",
+           f"Definition SAVES_NAMES : bool := {b(saves('locals_by_name'))}.\n",
+           "(* lower_stmt lowers a struct declared inside a function body *)\n",
+           f"Definition LOWERS_NESTED_STRUCT_DECL : bool := {b(nested_struct)}.\n"]
+    return extract.write_if_changed("LowerFlags.v", "".join(out))
